@@ -210,6 +210,45 @@ def mean_point_rules(cx):
         cx.ob('EXPR', short, ok, ('the weighted mean is (sum of p_i * w_i) / (sum of w_i), both sums over EVERY (point, weight) pair: scaling all weights by one factor leaves it unchanged'
                                    if weighted else 'the mean is (sum of p_i) / n over EVERY point'), where=b.file, found=found)
 
+def plane3_rules(cx):
+    """the (normal, d) convention of Plane3: every constructor, the inversion and the three measurements agree on it (shared with C03: a plane that
+    keeps d while its normal flips is mirrored through the ORIGIN, so its measurements depend on where the frame is)"""
+    # ---------------------------------------------------------------- Plane3
+    P3 = 'geom3::plane3::Plane3'
+    b = cx.fn(f'{P3}::from', where='Unit<')
+    if b:
+        cx.expect('COMUT', 'Plane3::from(normal,point)', cx.retval(b), '(call *Plane3::new $n (call Matrix::dot $n (field coords (field 1 (param 1)))))',
+                  'the plane stores n and d = n . p of the SAME n', where=b.file)
+    b = cx.fn(f'{P3}::from', where='OPoint<f64, parry2d_f64::nalgebra::Const<3>>, &parry2d_f64::nalgebra::OPoint')
+    if b:
+        cx.expect('EXPR', 'Plane3::from(p1,p2,p3)', cx.retval(b),
+                  '(call *Plane3::from (agg tuple (0 (call Unit::new_normalize (call Matrix::cross (call OPoint::sub (field 1 (param 1)) (field 0 (param 1))) '
+                  '(call OPoint::sub (field 2 (param 1)) (field 0 (param 1)))))) (1 (field 0 (param 1)))))',
+                  'three-point plane: normal = normalize((p2-p1) x (p3-p1)), through p1', where=b.file)
+    b = cx.fn(f'{P3}::from', where='SurfacePoint')
+    if b:
+        cx.expect('EXPR', 'Plane3::from(surface_point)', cx.retval(b), '(call *Plane3::from (agg tuple (0 (field normal (param 1))) (1 (field point (param 1)))))',
+                  'surface-point plane uses that point and that normal', where=b.file)
+    b = cx.fn(f'{P3}::new')
+    if b:
+        cx.expect('EXPR', 'Plane3::new', cx.retval(b), '(agg *Plane3 (normal (param normal)) (d (param d)))', 'new stores its arguments', where=b.file)
+    b = cx.fn(f'{P3}::inverted_normal')
+    if b:
+        cx.expect('COMUT', 'Plane3::inverted_normal', cx.retval(b), '(call *Plane3::new (call Unit::neg (self normal)) (neg (self d)))',
+                  'inverted_normal negates the normal AND d (same point set, flipped side)', where=b.file)
+    b = cx.fn(f'{P3}::signed_distance_to_point')
+    if b:
+        cx.expect('EXPR', 'Plane3::signed_distance', cx.retval(b), '(sub (call Matrix::dot (self normal) (field coords (param point))) (self d))', 'signed distance = n.p - d', where=b.file)
+    b = cx.fn(f'{P3}::project_point')
+    if b:
+        cx.expect('EXPR', 'Plane3::project_point', cx.retval(b), '(call OPoint::sub (param point) (call Matrix::mul (self normal) (call *signed_distance_to_point (param self) (param point))))',
+                  'projection = p - n * signed_distance(p)', where=b.file)
+    b = cx.fn(f'{P3}::distance_to_point')
+    if b:
+        cx.expect('EXPR', 'Plane3::distance_to_point', cx.retval(b), '(call f64::abs (call *signed_distance_to_point (param self) (param point)))', 'distance = |signed distance|', where=b.file)
+
+
+
 def run(cx):
     mean_point_rules(cx)
     # ---------------------------------------------------------------- AXIS
@@ -390,40 +429,7 @@ def run(cx):
                                           match('(div (call f64::powi (param 2) 2) (cast f64 (field n _)))', cr) is not None)
         cx.ob('EXPR', 'SvdBasis::basis_variances', okv, 'variance_i = sv_i^2 / n', where=b.file)
 
-    # ---------------------------------------------------------------- Plane3
-    P3 = 'geom3::plane3::Plane3'
-    b = cx.fn(f'{P3}::from', where='Unit<')
-    if b:
-        cx.expect('COMUT', 'Plane3::from(normal,point)', cx.retval(b), '(call *Plane3::new $n (call Matrix::dot $n (field coords (field 1 (param 1)))))',
-                  'the plane stores n and d = n . p of the SAME n', where=b.file)
-    b = cx.fn(f'{P3}::from', where='OPoint<f64, parry2d_f64::nalgebra::Const<3>>, &parry2d_f64::nalgebra::OPoint')
-    if b:
-        cx.expect('EXPR', 'Plane3::from(p1,p2,p3)', cx.retval(b),
-                  '(call *Plane3::from (agg tuple (0 (call Unit::new_normalize (call Matrix::cross (call OPoint::sub (field 1 (param 1)) (field 0 (param 1))) '
-                  '(call OPoint::sub (field 2 (param 1)) (field 0 (param 1)))))) (1 (field 0 (param 1)))))',
-                  'three-point plane: normal = normalize((p2-p1) x (p3-p1)), through p1', where=b.file)
-    b = cx.fn(f'{P3}::from', where='SurfacePoint')
-    if b:
-        cx.expect('EXPR', 'Plane3::from(surface_point)', cx.retval(b), '(call *Plane3::from (agg tuple (0 (field normal (param 1))) (1 (field point (param 1)))))',
-                  'surface-point plane uses that point and that normal', where=b.file)
-    b = cx.fn(f'{P3}::new')
-    if b:
-        cx.expect('EXPR', 'Plane3::new', cx.retval(b), '(agg *Plane3 (normal (param normal)) (d (param d)))', 'new stores its arguments', where=b.file)
-    b = cx.fn(f'{P3}::inverted_normal')
-    if b:
-        cx.expect('COMUT', 'Plane3::inverted_normal', cx.retval(b), '(call *Plane3::new (call Unit::neg (self normal)) (neg (self d)))',
-                  'inverted_normal negates the normal AND d (same point set, flipped side)', where=b.file)
-    b = cx.fn(f'{P3}::signed_distance_to_point')
-    if b:
-        cx.expect('EXPR', 'Plane3::signed_distance', cx.retval(b), '(sub (call Matrix::dot (self normal) (field coords (param point))) (self d))', 'signed distance = n.p - d', where=b.file)
-    b = cx.fn(f'{P3}::project_point')
-    if b:
-        cx.expect('EXPR', 'Plane3::project_point', cx.retval(b), '(call OPoint::sub (param point) (call Matrix::mul (self normal) (call *signed_distance_to_point (param self) (param point))))',
-                  'projection = p - n * signed_distance(p)', where=b.file)
-    b = cx.fn(f'{P3}::distance_to_point')
-    if b:
-        cx.expect('EXPR', 'Plane3::distance_to_point', cx.retval(b), '(call f64::abs (call *signed_distance_to_point (param self) (param point)))', 'distance = |signed distance|', where=b.file)
-
+    plane3_rules(cx)
 
 def run_thorough(cx):
     """thorough tier: the generic evaluators this property relies on must fire on their positive fixture twins"""
